@@ -34,7 +34,7 @@ func (g *gen) lit(prefix string) Expr {
 }
 
 // constructs: each takes the nested content and returns nodes
-const nKinds = 17
+const nKinds = 18
 
 func (g *gen) build(kind int, inner []Node) []Node {
 	g.n++
@@ -84,6 +84,9 @@ func (g *gen) build(kind int, inner []Node) []Node {
 		file := fmt.Sprintf("ssi%d", id)
 		g.files["/"+file] = cat(p("ssi"), []Node{Set{Name: "a", E: g.lit("ss")}, Set{Name: "b", E: g.lit("ss")}}, p("ssi'"))
 		return cat([]Node{Include{File: file, SSI: true}}, inner)
+	case 17: // a macro WITHOUT parameters: its body is a scope of its own all the same
+		name := fmt.Sprintf("m%d", id)
+		return cat([]Node{Macro{Name: name, Body: cat([]Node{Set{Name: "a", E: g.lit("z")}, Set{Name: "b", E: g.lit("z")}}, p("z"), inner)}, O(Call{Name: name})}, p("z'"))
 	case 14: // autoescape (no scope of its own): a set inside it is visible after it
 		return cat([]Node{Autoescape{On: false, Body: cat([]Node{Set{Name: "a", E: g.lit("ae")}}, p("ae"), inner)}}, p("ae'"))
 	case 15: // set to nothing: the name is bound (to nothing) and hides the caller's and the set's entries
@@ -106,10 +109,12 @@ type KeyCase struct {
 	// Via: "" = Execute, "globals" = the key sits in the set's Globals, "globals-nil" = the same with a nil Context, "blocks" = ExecuteBlocks
 	Extends bool   `json:"extends,omitempty"`
 	Via     string `json:"via,omitempty"`
+	// InBase: (with Extends and Macro) the macro of that name is exported by the BASE template of the executed one
+	InBase bool `json:"in_base,omitempty"`
 }
 
 func (c *KeyCase) ID() string {
-	return fmt.Sprintf("context key %q macro=%v extends=%v via=%s", string(c.Key), c.Macro, c.Extends, c.Via)
+	return fmt.Sprintf("context key %q macro=%v extends=%v via=%s in-base=%v", string(c.Key), c.Macro, c.Extends, c.Via, c.InBase)
 }
 
 func (c *KeyCase) Exec(t *eng.T) {
@@ -118,10 +123,14 @@ func (c *KeyCase) Exec(t *eng.T) {
 	if c.Macro {
 		src = "{% macro " + string(c.Key) + "() export %}m{% endmacro %}x{{ ok }}"
 	}
-	set, _ := px.NewSet(map[string]string{"/base": "B{% block a %}b{% endblock %}{{ ok }}"})
+	baseSrc := "B{% block a %}b{% endblock %}{{ ok }}"
+	if c.InBase {
+		baseSrc = "B{% macro " + string(c.Key) + "() export %}m{% endmacro %}{% block a %}b{% endblock %}{{ ok }}"
+	}
+	set, _ := px.NewSet(map[string]string{"/base": baseSrc})
 	if c.Extends {
 		src = "{% extends \"base\" %}{% block a %}x{% endblock %}"
-		if c.Macro {
+		if c.Macro && !c.InBase {
 			src = "{% extends \"base\" %}{% macro " + string(c.Key) + "() export %}m{% endmacro %}{% block a %}x{% endblock %}"
 		}
 	}
@@ -303,6 +312,22 @@ func run(r *eng.Runner) {
 		}
 	}
 
+	// the names a loop binds belong to ONE activation of the loop
+	r.Group("loop-activations", "prog.case", "a macro whose body holds a loop and calls itself from inside that loop (depth 0..3): forloop and the loop variable of the outer activation are what they were when the inner activations have ended")
+	for depth := 0; depth <= 3; depth++ {
+		for _, xs := range []V{ListV(IntV(5), IntV(6)), ListV(IntV(1), IntV(2), IntV(3)), ListV(IntV(9))} {
+			body := []Node{For{Key: "x", Over: v("xs"), Body: []Node{O(v("x")), O(v("forloop", "Counter")), T("<"), If{Conds: []Expr{Bin{Op: ">", L: v("n"), R: Lit{V: IntV(0)}}}, Bodies: [][]Node{{O(Call{Name: "tree", Args: []Expr{Bin{Op: "-", L: v("n"), R: Lit{V: IntV(1)}}}})}}},
+				T(">"), O(v("x")), O(v("forloop", "Counter")), T("/"), O(v("forloop", "Revcounter")), O(v("forloop", "Last")), T(";")}}}
+			main := []Node{Macro{Name: "tree", Params: []Param{{Name: "n"}}, Body: body}, O(Call{Name: "tree", Args: []Expr{Lit{V: IntV(depth)}}}), T("|"), O(v("x"))}
+			cx := map[string]V{"xs": xs, "x": StrV("ctx-x")}
+			if c, ok := prog.BuildTwice(map[string][]Node{"/main": main}, cx, prog.Vary(cx), nil, "loop-activations", fmt.Sprint("loop-activations depth ", depth), false); ok {
+				r.Do(c)
+			} else {
+				r.AddExtra("programs_outside_fragment", 1)
+			}
+		}
+	}
+
 	// a name keeps the value it was given
 	r.Group("set-is-a-value", "prog.case", "a name set (or bound by with) to a field of the forloop record in the first / every second pass of a loop is printed in every pass: it keeps the value of the pass it was set in")
 	{
@@ -383,6 +408,7 @@ func run(r *eng.Runner) {
 	// the same rules when the executed template extends a base, when the key comes from the set's Globals, and for ExecuteBlocks
 	for _, via := range []string{"", "globals", "blocks", "globals-nil", "blocks-none"} {
 		r.Do(&KeyCase{Key: "mac", Macro: true, Reject: true, Extends: true, Via: via})
+		r.Do(&KeyCase{Key: "mac", Macro: true, Reject: true, Extends: true, Via: via, InBase: true})
 		r.Do(&KeyCase{Key: "other", Reject: false, Extends: true, Via: via})
 		r.Do(&KeyCase{Key: "a-b", Reject: true, Extends: true, Via: via})
 		r.Do(&KeyCase{Key: "fine", Reject: false, Extends: true, Via: via})
